@@ -49,6 +49,16 @@ pub fn stark_commit<Layout: LayoutTrait>(
     let oods_coefficients =
         powers_array(Felt::ONE, oods_alpha, (Layout::MASK_SIZE + Layout::CONSTRAINT_DEGREE) as u32);
 
+    // fri_commit reads one commitment per inner layer and asserts that the last layer has exactly
+    // 2^log_last_layer_degree_bound coefficients: check both here so that a malformed proof is an
+    // error rather than a panic.
+    if Felt::from(unsent_commitment.fri.inner_layers.len()) + Felt::ONE < config.fri.n_layers
+        || Felt::from(unsent_commitment.fri.last_layer_coefficients.len())
+            != Felt::TWO.pow_felt(&config.fri.log_last_layer_degree_bound)
+    {
+        return Err(Error::FriCommitmentLength);
+    }
+
     // Read fri commitment.
     let fri_commitment = fri_commit(transcript, unsent_commitment.fri.clone(), config.fri.clone());
 
@@ -97,6 +107,9 @@ pub enum Error {
 
     #[error("OodsVerifyError Error")]
     Oods(#[from] oods::OodsVerifyError),
+
+    #[error("wrong number of FRI layer commitments or last layer coefficients")]
+    FriCommitmentLength,
 }
 
 #[cfg(not(feature = "std"))]
@@ -110,4 +123,7 @@ pub enum Error {
 
     #[error("OodsVerifyError Error")]
     Oods(#[from] oods::OodsVerifyError),
+
+    #[error("wrong number of FRI layer commitments or last layer coefficients")]
+    FriCommitmentLength,
 }
